@@ -4,7 +4,7 @@ C01 driver: stateful line protocol around Model/Timeline.lean.
   reset q0 <n c0 … c(n-1)>      new Part(quarter_duration=q0); n objects with their class ids
   add oid s e | rm oid s|e|b | qd t q | goa t
   all cls a b incl mode | prev t cls eq incl | next t cls eq incl | first | last | gp t | qds a b
-  sweep a b                     iter_all for every cls (None, 0..numClasses-1) × include_subclasses × mode
+  sweep a b n                   iter_all for every cls (None if n, 0..numClasses-1) × include_subclasses × mode
   inv                           `1` iff the (decidable) invariant holds of the current model state
 
 Every answer except `inv` is `<result>;<full canonical dump of the state>`.
@@ -99,8 +99,8 @@ def parseOp (classes : List Nat) : List String → Option Op
   | "qds" :: rest => run (do let a ← opt int; let b ← opt int; pure (Op.quarterDurations a b)) rest
   | _ => none
 
-def sweep (s : Part) (a b : Option Int) : String :=
-  let clss : List (Option Nat) := none :: (List.range Gen.numClasses).map some
+def sweep (s : Part) (a b : Option Int) (withNone : Bool) : String :=
+  let clss : List (Option Nat) := (if withNone then [none] else []) ++ (List.range Gen.numClasses).map some
   let one (c : Option Nat) : String :=
     fmtList (fun (im : Bool × Mode) => fmtList (fun o => fmtNat o.id) (iterAll s c a b im.1 im.2))
       [(false, .starting), (false, .ending), (true, .starting), (true, .ending)]
@@ -116,8 +116,8 @@ def handle (d : DState) (ts : List String) : DState × String :=
     | none => (d, "bad-request")
   | ["inv"] => (d, fmtBool (invB d.part))
   | "sweep" :: rest =>
-    match run (do let a ← opt int; let b ← opt int; pure (a, b)) rest with
-    | some (a, b) => (d, sweep d.part a b ++ ";" ++ dump d)
+    match run (do let a ← opt int; let b ← opt int; let n ← bool; pure (a, b, n)) rest with
+    | some (a, b, n) => (d, sweep d.part a b n ++ ";" ++ dump d)
     | none => (d, "bad-request")
   | _ =>
     match parseOp d.classes ts with
